@@ -515,6 +515,43 @@ func runReplaceCloses(p *core.Program, r *core.Report, rule string) {
 					okPre = true
 				}
 			}
+			// the old port may have been released by the caller just before
+			// it called this function (target.releaseOldDst(...); return
+			// op.execValueSource(fm, target))
+			if !okPre {
+				nsites, covered := 0, 0
+				for _, g := range fam {
+					var gClosers, gSites []ssa.Instruction
+					core.Instrs(g, func(x ssa.Instruction) {
+						c, ok := x.(ssa.CallInstruction)
+						if !ok {
+							return
+						}
+						callee := c.Common().StaticCallee()
+						if callee == nil {
+							return
+						}
+						if callee == fn {
+							gSites = append(gSites, x)
+						}
+						if core.IsFunc(callee, pkgEval, "formOwnedPort", "close") || (core.PkgPathOf(callee) == pkgEval && closesOwnedPort(callee)) {
+							gClosers = append(gClosers, x)
+						}
+					})
+					for _, site := range gSites {
+						nsites++
+						for _, cl := range gClosers {
+							if core.Precedes(cl, site) {
+								covered++
+								break
+							}
+						}
+					}
+				}
+				if nsites > 0 && covered == nsites {
+					okPre = true
+				}
+			}
 			if okPre {
 				r.OK(rule, construct+" #"+itoa(n), p.InsPos(ins), "a close of the old port dominates this store")
 			} else {
